@@ -22,8 +22,10 @@ WF = {'R': WM.RECURSIVE, 'H': WM.HIDDEN, 'S': WM.SYMLINKS, 'F': WM.FILEPATHNAME,
 LETTERS = 'RHSFDXGEBMI'
 
 FILE_PATS = ['*', '', 'a', '.h', 'a|b', '!a', '*|!a', '!a|!b', '-a', '@(a|b)', '{a,b}', '**/a', 'a/*', '*/a', '*/*', 'b', '.*',
-             '!*/a', '**', '[ab]', '!.h', '/a', '/*/a', '**/*|!/a/*', '/b|a']
-EXCL_PATS = ['', 'a', '.h', '!a', 'b|a', '*/a', '**/a', 'a/', '*', '-b', '!a/b', '.*', '/a', '/a/b']
+             '!*/a', '**', '[ab]', '!.h', '/a', '/*/a', '**/*|!/a/*', '/b|a',
+             # the same text positive and negated in one pattern; a negation sign in front of a literal parenthesis
+             'a|!a', '!a|a', '{,!}a', '*|!*', '-(a)*', '*|-(a)', '!(a)', '!(a)|!b', '-a|a']
+EXCL_PATS = ['', 'a', '.h', '!a', 'b|a', '*/a', '**/a', 'a/', '*', '-b', '!a/b', '.*', '/a', '/a/b', 'a|!a', '-(a)', '!a|a']
 FILE_PATS_CASE = ['a', 'A', '[aA]', '*', '!A', 'a|B']
 
 
@@ -248,7 +250,11 @@ def run_chunk(chunk):
     sc = fsx.Scratch()
     try:
         if kind == 'std':
-            pairs = [(f, e) for f in FILE_PATS for e in EXCL_PATS]
+            # the full grid of the first pools; the later additions (sign / duplicate-text cases) against a few partners
+            nf, ne = 25, 14
+            pairs = [(f, e) for f in FILE_PATS[:nf] for e in EXCL_PATS[:ne]]
+            pairs += [(f, e) for f in FILE_PATS[nf:] for e in ('', 'a', '!a')]
+            pairs += [(f, e) for f in ('*', 'a|b', '**/a') for e in EXCL_PATS[ne:]]
             flagsets = covering(LETTERS)
         else:
             pairs = [(f, e) for f in FILE_PATS_CASE for e in ('', 'A', 'a')]
